@@ -244,3 +244,50 @@ pub fn addr_book(net: &crate::Network) -> Vec<(validator::PublicKey, Arc<validat
     v.sort_by(|a, b| a.0.cmp(&b.0));
     v
 }
+
+// ---------------------------------------------------------------------------------------------
+// A gossip peer that calls one RPC of the node as fast as the protocol lets it (no client-side rate)
+
+/// In-flight limits of the RPCs `hammer` can call: (push_block_store_state, get_block, push_validator_addrs).
+pub fn rpc_inflight() -> (u32, u32, u32) {
+    use crate::rpc::Rpc as _;
+    (crate::rpc::push_block_store_state::Rpc::INFLIGHT, crate::rpc::get_block::Rpc::INFLIGHT, crate::rpc::push_validator_addrs::Rpc::INFLIGHT)
+}
+
+/// Runs the real `rpc::Service` over an authenticated connection with clients (rate `INF`) for the three RPCs a gossip node serves to its
+/// peers, and issues `n` concurrent calls of `kind` ("push_block_store_state" | "get_block" | "push_validator_addrs"). Returns, per call that
+/// completed before `ctx` ended, the time of completion in milliseconds since the first call was issued (clock of `ctx`).
+pub async fn hammer(ctx: &ctx::Ctx, conn: Dialed, kind: &str, n: usize, state: BlockStoreState) -> Vec<u64> {
+    use zksync_concurrency::{limiter, scope};
+    let c_state = crate::rpc::Client::<crate::rpc::push_block_store_state::Rpc>::new(ctx, limiter::Rate::INF);
+    let c_block = crate::rpc::Client::<crate::rpc::get_block::Rpc>::new(ctx, limiter::Rate::INF);
+    let c_addrs = crate::rpc::Client::<crate::rpc::push_validator_addrs::Rpc>::new(ctx, limiter::Rate::INF);
+    let done = std::sync::Mutex::new(vec![]);
+    let t0 = ctx.now();
+    let (c_state, c_block, c_addrs, done_ref, state) = (&c_state, &c_block, &c_addrs, &done, &state);
+    let _: Result<(), ctx::Error> = scope::run!(ctx, |ctx, s| async move {
+        let service = crate::rpc::Service::new()
+            .add_client(c_state)
+            .add_client(c_block)
+            .add_client(c_addrs)
+            .add_server(ctx, crate::rpc::ping::Server, crate::rpc::ping::RATE);
+        for i in 0..n {
+            s.spawn_bg(async move {
+                let ok = match kind {
+                    "push_block_store_state" => c_state.call(ctx, &crate::rpc::push_block_store_state::Req { state: state.clone() }, zksync_protobuf::kB).await.is_ok(),
+                    "get_block" => c_block.call(ctx, &crate::rpc::get_block::Req(validator::BlockNumber(i as u64)), 10 * zksync_protobuf::MB).await.is_ok(),
+                    _ => c_addrs.call(ctx, &crate::rpc::push_validator_addrs::Req(vec![]), zksync_protobuf::kB).await.is_ok(),
+                };
+                if ok {
+                    done_ref.lock().unwrap().push((ctx.now() - t0).whole_milliseconds() as u64);
+                }
+                Ok(())
+            });
+        }
+        service.run(ctx, conn.0).await.map_err(|e| ctx::Error::Internal(anyhow::format_err!("{e}")))
+    })
+    .await;
+    let mut v = done.lock().unwrap().clone();
+    v.sort();
+    v
+}
